@@ -60,7 +60,7 @@ impl Property for C03 {
         "C03"
     }
     fn rule(&self) -> String {
-        "Generated: (language, text, repeat, threshold) with text drawn from any::<String>(), \\PC*, whitespace-only, hyphen/apostrophe-only, a pool of hostile fragments (combining marks, non-Latin digits, ZWSP, BOM, NUL, ß, İ, ligatures, line separators), and the dirty sentence generator (vocabulary words glued, truncated, recased); repeat up to 3000 for long inputs; thresholds incl. NaN, ±inf, negative, subnormal. Every entry point (text2digits, replace_numbers_in_text, find_numbers, find_numbers_iter drained then polled twice, replace_numbers_in_stream, get_interpreter_for) is called under catch_unwind; text2digits must answer Err for texts without any alphanumeric character and never Ok(\"\"). Enumerated: every string of length <= 3 over a 9-character alphabet x 7 languages. Non-trivial = distinct (lang,text) with no alphanumeric char, or a multi-byte char, or a hyphen/apostrophe at a token edge, or total length > 1000, or a non-finite threshold.".into()
+        "Generated: (language, text, repeat, threshold) with text drawn from any::<String>(), \\PC*, whitespace-only, hyphen/apostrophe-only, a pool of hostile fragments (combining marks, non-Latin digits, ZWSP, BOM, NUL, ß, İ, ligatures, line separators), and the dirty sentence generator (vocabulary words glued, truncated, recased); repeat up to 2000 for long inputs; thresholds incl. NaN, ±inf, negative, subnormal. Every entry point (text2digits, replace_numbers_in_text, find_numbers, find_numbers_iter drained then polled twice, replace_numbers_in_stream, get_interpreter_for) is called under catch_unwind; text2digits must answer Err for texts without any alphanumeric character and never Ok(\"\"). Enumerated: every string of length <= 3 over a 9-character alphabet x 7 languages. Non-trivial = distinct (lang,text) with no alphanumeric char, or a multi-byte char, or a hyphen/apostrophe at a token edge, or total length > 1000, or a non-finite threshold.".into()
     }
     fn assumptions(&self) -> Vec<String> {
         vec!["non-termination would show as the watchdog expiring (exit 2, inconclusive), not as a violation".into()]
@@ -74,11 +74,11 @@ impl Property for C03 {
             4 => sentence_strategy(Mode::Dirty, 10).prop_map(|(_, s)| s.render()),
             1 => sentence_strategy(Mode::Clean, 10).prop_map(|(_, s)| s.render()),
         ];
-        let repeat = prop_oneof![20 => Just(1u32), 2 => 2u32..6, 1 => 100u32..3000];
+        let repeat = prop_oneof![60 => Just(1u32), 4 => 2u32..6, 1 => 100u32..2000];
         (lang_strategy(), text, repeat, threshold_strategy()).prop_map(|(lang, text, repeat, th_bits)| Case { lang, text, repeat, th_bits }).boxed()
     }
     fn cases(&self, tier: Tier) -> u64 {
-        tier.pick(250_000, 6_000_000)
+        tier.pick(250_000, 4_000_000)
     }
     fn enumerate(&self, _tier: Tier, shard: usize, nshards: usize, emit: &mut Emit<Case>) {
         let alpha = [' ', '-', '\'', 'o', 'a', '1', '.', '\u{a0}', '\u{301}'];
